@@ -700,10 +700,8 @@ func (p *Program) resolveTypeRenamesOnce() (progress bool) {
 // Func resolves a short name ("Conn.writeFrame", "readFrameHeader", "wsjson.read",
 // "Conn.CloseRead$1"). Unresolved anchors are recorded.
 func (p *Program) Func(name string) *ssa.Function {
-	for _, f := range p.Funcs {
-		if p.rawName(f) == name {
-			return f
-		}
+	if f := p.FuncOpt(name); f != nil {
+		return f
 	}
 	p.Unresolved = append(p.Unresolved, "func "+name)
 	return nil
@@ -716,7 +714,17 @@ func (p *Program) FuncOpt(name string) *ssa.Function {
 			return f
 		}
 	}
-	return nil
+	// a closure that moved into a helper together with the body of its function keeps its attributed name
+	var found *ssa.Function
+	for _, f := range p.Funcs {
+		if f.Parent() != nil && p.FuncName(f) == name {
+			if found != nil {
+				return nil
+			}
+			found = f
+		}
+	}
+	return found
 }
 
 // NamedType resolves a package-level named type of the main package (or "pkg.Type").
